@@ -188,10 +188,8 @@ class AstTr:
                 hic = f"({int(hi[1])} : Int)" if hi[0] == "num" else hi[1]
                 return I, f"(Jnp.clipInt {c0} {loc} {hic})"
             x, lo, hi = self.sc(n.args[0]), self.sc(n.args[1]), self.sc(n.args[2])
-            ex, elo, ehi = self.ev(x[1]), self.ev(lo[1]), self.ev(hi[1])
-            # jnp.clip = minimum(maximum(x, lo), hi); the cotangent goes to whichever argument is selected
-            return S, (f"(Expr.sel (fun env => Num.lt {ex} {elo}) {lo[1]} "
-                       f"(Expr.sel (fun env => Num.lt {ehi} {ex}) {hi[1]} {x[1]}))")
+            # jnp.clip(x, lo, hi) = minimum(maximum(x, lo), hi)
+            return S, f"(Expr.min (Expr.max {x[1]} {lo[1]}) {hi[1]})"
         if fn == "jnp.searchsorted":
             vk, vc = self.e(n.args[0])
             x = self.sc(n.args[1])
